@@ -556,8 +556,8 @@ Definition live_snapshot : hmap := [(bs "Vary", [bs "Origin"])].
 (* c17.live: table version rpc (raw?) nreq -> (1) | (0 status (headers) (trailers) #body date) *)
 Definition run_c17_live (args : list sx) : sx :=
   match args with
-  | [t; I _; I k; raw; I _] =>
-    match (do t <- un_table t; do k <- un_rpc k; do raw <- un_opt un_resp raw;
+  | [t; I ver; I k; raw; I _] =>
+    match (do t <- un_table t; do k <- (if (ver =? 1)%Z || (ver =? 2)%Z then un_rpc k else None); do raw <- un_opt un_resp raw;
            if match raw with Some r => body_covered t (r_body r) | None => true end
            then ret (t, k, raw) else None) with
     | None => sx_bad
@@ -599,8 +599,9 @@ Definition live_orig : origreq :=
 (* c17.request: table version rawrequest -> (err roundtrip) | (0 method path (query) (headers) #body) *)
 Definition run_c17_request (args : list sx) : sx :=
   match args with
-  | [t; I _; r] =>
-    match (do t <- un_table t; do r <- un_rawreq r;
+  | [t; I ver; r] =>
+    match (do t <- un_table t; do r <- (if (ver =? 1)%Z || (ver =? 2)%Z then un_rawreq r else None);
+           if negb (match q_uri r with 47 :: _ => true | _ => false end) then None else   (* origin-form URIs only *)
            if body_covered t (q_body r) && forallb (fun e => contents_covered t (e_value e)) (q_encq r)
            then ret (t, r) else None) with
     | None => sx_bad
